@@ -26,7 +26,7 @@ var bareNames = []string{"a", "b", "c", "d", "e", "f", "g", "x1", "y_2", "Name",
 	"É", "Ж", "ωmega", "NAÏVE", "\u212a", "k", "ſ", "s",
 	// the ends of the ranges: the last letters of the alphabet, the first code point above ASCII
 	"z", "Z_z", "\u0080q"}
-var quotedNames = []string{"select", "my col", "a\"b", "from", "a]b", "x`y", "tab,le", "1st", "é é", "primary", "key", "(", "a'b", "", "x.y", "--c", "q\"", "tick`", "\"\"", "end]x", "it's", "*", "*", "*"}
+var quotedNames = []string{"select", "my col", "a\"b", "from", "a]b", "x`y", "tab,le", "1st", "é é", "primary", "key", "(", "a'b", "", "x.y", "--c", "q\"", "tick`", "\"\"", "end]x", "it's", "*", "*", "*", "100%done", "%s", "%d%%"}
 
 func quote(name string, style int) string {
 	switch style {
@@ -386,7 +386,9 @@ func GenTable(t *rapid.T, name Ident, o Opts) Table {
 				s = "CONSTRAINT " + rapid.SampledFrom([]string{"cn", "\"c n\"", "uq1"}).Draw(t, "cname") + " " +
 					rapid.SampledFrom([]string{"NOT NULL", "UNIQUE", "CHECK (1)", "DEFAULT 3"}).Draw(t, "cnamed")
 			case 9:
-				s = rapid.SampledFrom([]string{"NOT NULL ON CONFLICT IGNORE", "UNIQUE ON CONFLICT REPLACE", "GENERATED ALWAYS AS (1) VIRTUAL", "AS (2) STORED", "NOT NULL UNIQUE", "AS (5)", "AS (7)", "GENERATED ALWAYS AS (3)"}).Draw(t, "cmisc")
+				s = rapid.SampledFrom([]string{"NOT NULL ON CONFLICT IGNORE", "UNIQUE ON CONFLICT REPLACE", "GENERATED ALWAYS AS (1) VIRTUAL", "AS (2) STORED", "NOT NULL UNIQUE", "AS (5)", "AS (7)", "GENERATED ALWAYS AS (3)",
+					// to SQLite a column constraint of its own, wherever it stands (it needs no REFERENCES before it)
+					"DEFERRABLE", "DEFERRABLE INITIALLY DEFERRED", "NOT DEFERRABLE", "DEFERRABLE INITIALLY IMMEDIATE"}).Draw(t, "cmisc")
 			}
 			cons = append(cons, s)
 		}
